@@ -31,12 +31,16 @@ RULE = ("text stream: every truncation of hand-written documents and of tests/fi
         "multi-line texts with LF/CR/CRLF and non-ASCII, malformed texts; request stream: generated schema + generated "
         "document (valid, or invalidated in one of 8 ways) + operation name + variable payload (ok/missing/null/wrong) + "
         "resolver world (value/null/ResolverError with/without extensions per response path; fresh, subclass, SHARED instance or bogus-path errors); "
+        "errors rendered (to_dict/str/repr) by a logging middleware, by the resolver, or at creation (module-level constants living across "
+        "requests) before the executor registers them; extensions as dict / OrderedDict / MappingProxyType / custom Mapping / nested containers; "
+        "3-request histories where each rendered response is decorated (requestId) before the next request; "
         "execution-time argument coercion failures under lists of 2-4 items on all 4 configurations; non-trivial = distinct "
         "(text, operation name, variables, world) whose response has errors, or whose data has depth >= 2")
 ASSUMPTIONS = [
     "resolvers return values their field type can serialise, or raise the library's ResolverError; any other exception "
     "(incl. RuntimeError 'cannot be serialized' for a wrong/non-finite value) propagates by design (pinned by tests/test_execution) and is outside the statement",
-    "custom scalar serialisers and error `extensions` supplied by the application return JSON values",
+    "custom scalar serialisers return JSON values; error `extensions` supplied by the application are Mappings (any kind) of JSON values",
+    "a server may decorate the TOP LEVEL of an error's `extensions` in a rendered response; mutation of NESTED containers inside extensions is not exercised (to_dict copies one level)",
     "lines of the submitted text are delimited by the spec's LineTerminator (LF | CR | CRLF)",
 ]
 TRUSTED = [
@@ -260,7 +264,7 @@ def abs_err(e):
     return {"cls": "other:" + type(e).__name__, "msg": O.clean(str(e))}
 
 
-def observe_stages(schema, text, operation_name, variables, executor="blocking"):
+def observe_stages(schema, text, operation_name, variables, executor="blocking", middlewares=None):
     """
     Run the real stage functions one by one. -> (stages dict for the model, failed stage or None,
     ('internal', stage, exc) if a stage raised something that is not its documented exception).
@@ -304,7 +308,7 @@ def observe_stages(schema, text, operation_name, variables, executor="blocking")
     except Exception as e:  # noqa
         return st, "coerce", ("internal", "coerce", e)
     try:
-        r = execute(schema, doc, operation_name=operation_name, variables=variables,
+        r = execute(schema, doc, operation_name=operation_name, variables=variables, middlewares=middlewares,
                     executor_cls=BlockingExecutor if executor == "blocking" else Executor)
     except ExecutionError as e:     # e.g. subscription operation (after the proposed fix)
         st["getop"] = abs_err(e)
@@ -452,6 +456,10 @@ def check_case(ctx, case, pending):
         kw["operation_name"] = case["operation_name"]
     if case.get("variables") is not None:
         kw["variables"] = case["variables"]
+    mws = [G.logging_middleware] if case.get("middleware") else None
+    if mws:
+        kw["middlewares"] = mws
+        ctx.stat("with-logging-middleware")
     sigs = []
     detail = {k: v for k, v in case.items() if not k.startswith("_")}
 
@@ -467,7 +475,7 @@ def check_case(ctx, case, pending):
     wparams = case.get("world") or {"seed": 0}
     world_s = sync_holder.world = G.World(schema=sync_schema, **wparams)
     # --- stages, observed separately (sync resolvers, blocking executor) ---------------------
-    stages, failed, internal = observe_stages(sync_schema, text, case.get("operation_name"), case.get("variables"))
+    stages, failed, internal = observe_stages(sync_schema, text, case.get("operation_name"), case.get("variables"), middlewares=mws)
     calls_blocking = list(world_s.calls)
     injected = bool(world_s.injected_nonfinite)
     ctx.stat("stage:" + (failed or "executed"))
@@ -518,7 +526,7 @@ def check_case(ctx, case, pending):
             extra = [p for p in got if p not in want]
             dup = [p for p in set(got) if got.count(p) > 1]
             kind = "missing-error" if missing else ("duplicate-error" if dup and not extra else "unmatched-error")
-            shared = {tuple(p) for p, _t, _n, o in world.calls if o[0] == "raised" and o[3] == 2}
+            shared = {tuple(p) for p, _t, _n, o in world.calls if o[0] == "raised" and o[3] in (2, 4)}
             if missing and all(p in shared for p in missing):
                 kind += ":shared-error-instance"     # the resolver re-raised ONE ResolverError object
             fail("null-error-bijection:" + kind, "nulls at non-null positions / raised resolvers and errors are not in bijection",
@@ -542,6 +550,19 @@ def check_case(ctx, case, pending):
             if at != ("value", None):
                 fail("null-error-bijection:error-path-not-null", "an error's path does not lead to a null in data",
                      {"path": list(p), "at": repr(at)[:80]})
+    if world is not None:
+        for _p, _t, _n, o in world.calls:
+            if o[0] == "raised":
+                ctx.stat("raised:" + ["fresh", "subclass", "shared-in-request", "bogus-path", "module-constant-pre-rendered", "rendered-by-resolver"][o[3]])
+                ctx.stat("extensions:" + (type(o[2]).__name__ if o[2] is not None else "none"))
+    # a server decorating the errors of the response it is about to send must not reach the resolver's error objects:
+    # later requests (module-level constant errors live across requests) are checked against the PRISTINE extensions
+    try:
+        for e in (res.response().get("errors") or []):
+            if isinstance(e.get("extensions"), dict):
+                e["extensions"]["requestId"] = "decorated-by-server"
+    except Exception:  # noqa: already reported above
+        pass
     # --- non-triviality / stats --------------------------------------------------------------------
     nerr = len(resp.get("errors", []))
     ctx.stat("cfg:" + cfg)
@@ -741,12 +762,14 @@ def schemas_for(sdl):
     return {"blocking": (s, h), "default": (s, h), "threadpool": (s, h), "asyncio": (sa, ha)}
 
 
-def make_case(stream, sdl, built, cfg, text, operation_name=None, variables=None, world=None, note=None):
+def make_case(stream, sdl, built, cfg, text, operation_name=None, variables=None, world=None, note=None, middleware=False):
     schema, holder = built[cfg]
     c = {"stream": stream, "sdl": sdl, "cfg": cfg, "text": text, "operation_name": operation_name,
          "variables": variables, "world": world, "_schema": schema, "_holder": holder, "_sync": built["blocking"]}
     if note:
         c["note"] = note
+    if middleware:
+        c["middleware"] = True
     return c
 
 
@@ -802,7 +825,7 @@ def _run(ctx, rng, pending):
         for text, opn, vs in hand:
             for cfg in (CONFIGS if k % 3 == 0 else ["blocking"]):
                 w = {"seed": k, "p_raise": [0.0, 0.2, 0.5][k % 3], "p_null": 0.2, "p_null_nn": [0.1, 0.4][k % 2]}
-                check_case(ctx, make_case("hand", BASE_SDL, base, cfg, text, opn, vs, w), pending)
+                check_case(ctx, make_case("hand", BASE_SDL, base, cfg, text, opn, vs, w, middleware=(k % 2 == 1)), pending)
     # execution-time ARGUMENT coercion failures (valid document, valid variable payload) on fields selected
     # under lists of 2-4 items, nested lists, several such fields, all four configurations
     argco = [
@@ -824,6 +847,17 @@ def _run(ctx, rng, pending):
                  "min_items": 2}
             for cfg in (CONFIGS if k < 2 else ["blocking", CONFIGS[1 + k % 3]]):
                 check_case(ctx, make_case("argcoerce", BASE_SDL, base, cfg, text, None, vs, w), pending)
+    flush(ctx, pending)
+    # HISTORIES: the same request three times in a row (module-level constant errors are re-raised by every request; each
+    # rendered response is decorated by the "server" before the next request), lists of >= 2 items, errors rendered by a
+    # logging middleware / by the resolver before they reach the executor, extensions of every Mapping kind
+    hist = ["{ os { id n { id } v w } oss { id v } }", "{ a b os { ns { id v } } }", "mutation { m } ", "{ o { id n { id n { id } } } l }"]
+    for k in range(ctx.n(6, 30)):
+        w = {"seed": 500 + k, "p_raise": [0.5, 0.8][k % 2], "p_null": 0.0, "p_null_nn": 0.1, "min_items": 2}
+        for text in hist:
+            for rep in range(3):
+                cfg = CONFIGS[(k + rep) % 4]
+                check_case(ctx, make_case("history", BASE_SDL, base, cfg, text, None, None, w, middleware=(rep != 1), note="request %d of 3" % (rep + 1)), pending)
     flush(ctx, pending)
     # non-finite floats (X2)
     for k in range(ctx.n(6, 30)):
@@ -862,7 +896,7 @@ def _run(ctx, rng, pending):
                  "p_null_nn": rng.choice([0.0, 0.1, 0.3])}
             cfgs = ["blocking"] + ([rng.choice(CONFIGS[1:])] if r % 3 == 0 else [])
             for cfg in cfgs:
-                check_case(ctx, make_case("gen", sdl, built, cfg, text, req["operation_name"], req["variables"], w), pending)
+                check_case(ctx, make_case("gen", sdl, built, cfg, text, req["operation_name"], req["variables"], w, middleware=(r % 4 == 1)), pending)
             if r == 0:
                 ctx.sample({"text": text[:300], "operation_name": req["operation_name"], "variables": req["variables"], "world": w})
         if len(pending) > 2000:
@@ -905,7 +939,7 @@ def run_plain(ctx, item, pending, base):
     sdl = item.get("sdl") or BASE_SDL
     built = base if sdl == BASE_SDL else schemas_for(sdl)
     case = make_case(item.get("stream", "corpus"), sdl, built, item.get("cfg", "blocking"), item["text"],
-                     item.get("operation_name"), item.get("variables"), item.get("world"))
+                     item.get("operation_name"), item.get("variables"), item.get("world"), middleware=bool(item.get("middleware")))
     return check_case(ctx, case, pending)
 
 
@@ -924,7 +958,12 @@ def replay(ctx, data):
         return True     # a record of a broken obligation / correspondence without a concrete input
     ctx.model_ok = False
     try:
-        sigs = run_plain(ctx, inp, [], schemas_for(BASE_SDL))
+        # three times in a row: module-level constant errors live across requests and every rendered response is
+        # decorated by the "server" afterwards, so a failure may need the request's own earlier occurrence as history
+        base = schemas_for(BASE_SDL)
+        sigs = []
+        for _ in range(3):
+            sigs += run_plain(ctx, inp, [], base)
     finally:
         shutdown()
     want = data.get("signature")
